@@ -99,8 +99,10 @@ def run_sp(pid, job, build, cfgname=None):
 def judge_sp(part, pid, name, cfg, vals, mode, script, got, want, kind, draws, job):
     part.case(key=None, nontrivial=bool(draws))
     part.outcomes.add(stable_hash((name, repr(got))) & 0xffffff)
-    if not check_result(kind, got, want):
-        part.violation(f'{pid}:{name}', f'[{cfg}] {name}{tuple(vals)} = {got!r}, reference gives {want!r} (masks: {mode} {script})',
+    res = check_result(kind, got, want)
+    if res is not True and res != 1:
+        key = f'{pid}:{name}' + (f':{res}' if isinstance(res, str) else '')
+        part.violation(key, f'[{cfg}] {name}{tuple(vals)} = {got!r}, reference gives {want!r} (masks: {mode} {script})',
                        dict(engine='sp', name=name, vals=list(vals), mode=mode, script={str(a): b for a, b in (script or {}).items()},
                             k=job.get('k'), seed=job['seed'], cfg=cfg))
     if len(part.samples) < 2 and script and len(vals) >= 1 and draws:
@@ -120,8 +122,9 @@ def replay_sp(pid, case, build):
         part.violation(f"{pid}:{case['name']}:exception", f'{case["name"]}{vals} raised {exc!r}', case)
         return part
     want = op.ref(vals)
-    if not check_result(op.kind, got, want):
-        part.violation(f"{pid}:{case['name']}", f'{case["name"]}{vals} = {got!r}, reference gives {want!r}', case)
+    res = check_result(op.kind, got, want)
+    if res is not True and res != 1:
+        part.violation(f"{pid}:{case['name']}" + (f':{res}' if isinstance(res, str) else ''), f'{case["name"]}{vals} = {got!r}, reference gives {want!r}', case)
     return part
 
 
@@ -311,9 +314,12 @@ def run_mp(pid, job, build, base_k=4, batch=24, patterns=('seeded', 'zero', 'max
                 elif isinstance(gots[0], tuple) and gots[0] and gots[0][0] == 'raised':
                     part.violation(f'{pid}:{name}:exception', f'[{cfg}] {name}{vals} raised {gots[0][1]}',
                                    dict(engine='mp', job=job, lo=lo, pat=pat, idx=idx))
-                elif not check_result(op.kind, gots[0], want):
-                    part.violation(f'{pid}:{name}', f'[{cfg}] {name}{vals} = {gots[0]!r}, reference gives {want!r} (masks {pat})',
-                                   dict(engine='mp', job=job, lo=lo, pat=pat, idx=idx))
+                else:
+                    res = check_result(op.kind, gots[0], want)
+                    if res is not True and res != 1:
+                        part.violation(f'{pid}:{name}' + (f':{res}' if isinstance(res, str) else ''),
+                                       f'[{cfg}] {name}{vals} = {gots[0]!r}, reference gives {want!r} (masks {pat})',
+                                       dict(engine='mp', job=job, lo=lo, pat=pat, idx=idx))
                 if len(part.samples) < 1 and op.arity == 2 and idx == 3:
                     part.sample(dict(config=cfg, op=name, inputs=list(vals), mask_pattern=pat, results_per_party=[repr(g) for g in gots]))
     part.note('blinding_draws_forced_nonzero', sum(s.blinding_forced for s in seams) + getattr(world, 'blinding_forced', 0))
